@@ -69,6 +69,12 @@ def obj(props, required=(), **kw):
     return s
 
 
+def tagobj(tag, val, extra=None, req=None):
+    p = {tag: {"type": "string", "enum": [val]}}
+    p.update(extra or {})
+    return {"type": "object", "properties": p, "required": [tag] + list(req or [])}
+
+
 NUM = {"type": "number"}
 INT = {"type": "integer"}
 STR = {"type": "string"}
@@ -99,6 +105,27 @@ PIECES = {
     "AdjacentEnum": ({"oneOf": [obj({"t": {"type": "string", "enum": ["x"]}, "c": NUM}, ["t", "c"]),
                                 obj({"t": {"type": "string", "enum": ["y"]}, "c": {"type": "array", "items": STR}},
                                     ["t", "c"])]}, {"float", "enum"}),
+    # data-less enums in every tagging typify can produce (the K6 clause `Copy + Eq + Ord + Hash` applies to all):
+    # internally tagged, unit-only: oneOf of objects holding only a required constant tag property
+    "InternalUnitEnum": ({"oneOf": [tagobj("kind", "circle"), tagobj("kind", "square")]}, {"simple", "tagged-unit"}),
+    "InternalUnitDenyEnum": ({"oneOf": [dict(tagobj("kind", "a"), additionalProperties=False),
+                                        dict(tagobj("kind", "b"), additionalProperties=False),
+                                        dict(tagobj("kind", "c d"), additionalProperties=False)]},
+                             {"simple", "tagged-unit"}),
+    "InternalConstEnum": ({"oneOf": [obj({"t": {"const": "x"}}, ["t"]), obj({"t": {"const": "y"}}, ["t"])]},
+                          {"simple", "tagged-unit"}),
+    # adjacently tagged, unit-only: the content property is null in every variant
+    "AdjacentUnitEnum": ({"oneOf": [tagobj("t", "a", {"c": {"type": "null"}}, ["c"]),
+                                    tagobj("t", "b", {"c": {"type": "null"}}, ["c"])]}, {"simple", "tagged-unit"}),
+    # externally tagged from const / oneOf-of-single-value enums / described variants / renames
+    "ExternalConstEnum": ({"oneOf": [{"const": "x"}, {"const": "y"}]}, {"simple"}),
+    "OneOfDescEnum": ({"oneOf": [{"type": "string", "enum": ["a"], "description": "first"},
+                                 {"type": "string", "enum": ["b"], "description": "second"}]}, {"simple"}),
+    "RenamedEnum": ({"type": "string", "enum": ["foo-bar", "Foo Baz", "1st", "a/b", "", "type", "Self"]}, {"simple"}),
+    "NullableEnum": ({"type": ["string", "null"], "enum": ["a", "b", None]}, {"newtype"}),   # + inner simple enum
+    # untagged: a data-less untagged enum is not reachable (a lone null becomes a unit newtype; the assert! at
+    # output_enum allows one simple variant at most) - an untagged enum WITH a null variant beside data:
+    "UntaggedWithNull": ({"oneOf": [{"type": "null"}, obj({"a": INT}, ["a"]), {"type": "boolean"}]}, {"enum"}),
     "UntaggedEnum": ({"oneOf": [NUM, STR]}, {"float", "enum"}),
     "UntaggedObjects": ({"anyOf": [obj({"p": INT}, ["p"]), obj({"q": STR}, ["q"])]}, {"enum"}),
     "StrNewtype": (STR, {"strnt"}),
@@ -141,6 +168,9 @@ SAFE_PATCH = {
     "EmptyStruct": [["PartialEq", "Eq", "Hash", "Copy"]],
     "DenyStruct": [["Copy"], ["PartialEq", "Eq", "PartialOrd", "Ord", "Hash", "Copy"]],
     "SimpleEnum": [["PartialEq"], ["Hash", "Eq"]],          # already built in: de-duplication
+    "InternalUnitEnum": [["PartialEq"], ["Hash", "Ord"]],
+    "AdjacentUnitEnum": [["Hash"]],
+    "RenamedEnum": [["Eq", "PartialEq"]],
     "StrNewtype": [["Hash"], ["Default"]],
     "MaxLenStr": [["PartialEq", "Ord"]],
     "IntNewtype": [["PartialEq", "Eq", "Hash", "Copy"], ["Default"]],
@@ -257,6 +287,10 @@ def gen_cases(ctx):
     for r in range(n_rand):
         k = rnd.randint(2, 9)
         names = rnd.sample(allp, k)
+        forced = rnd.choice(["InternalUnitEnum", "InternalUnitDenyEnum", "InternalConstEnum", "AdjacentUnitEnum",
+                             "ExternalConstEnum", "RenamedEnum", "OneOfDescEnum", "NullableEnum"])
+        if forced not in names:
+            names.append(forced)
         rename = {}
         pool = list(alias)
         rnd.shuffle(pool)
@@ -309,7 +343,10 @@ def scan_view(gen):
         v = {"name": n, "vis": it["vis"], "derives": list(it.get("derives", [])),
              "de_impl": "::serde::Deserialize<'de>" in tr,
              "from_ref": ("::std::convert::From<&Self>" in tr) or ("::std::convert::From<&%s>" % n in tr),
-             "dataless": False, "strinner": False}
+             "dataless": False, "strinner": False,
+             "tagging": ("untagged" if any(a[0] == "untagged" for a in it.get("serde", [])) else
+                         "adjacent" if any(a[0] == "content" for a in it.get("serde", [])) else
+                         "internal" if any(a[0] == "tag" for a in it.get("serde", [])) else "external")}
         if it["kind"] == "enum":
             v["kind"] = "enum"
             v["fields"] = []
@@ -470,6 +507,9 @@ def mutate_scan_view(sv):
             e["derives"] = [d for d in e["derives"] if d != "Hash"]
         if MUT == "impl-no-from-ref" and e["kind"] == "enum":
             e["from_ref"] = False
+        if MUT == "impl-tagged-unit-enum-loses-cmp" and e["kind"] == "enum" and e["dataless"] and \
+                e["tagging"] != "external":
+            e["derives"] = [d for d in e["derives"] if d not in ("Copy", "PartialOrd", "Ord", "PartialEq", "Eq", "Hash")]
     return sv
 
 
@@ -485,6 +525,33 @@ def compare_views(mv, sv):
     db = {json.dumps(e, sort_keys=True) for e in b}
     return [{"model_only": [json.loads(x) for x in sorted(da - db)][:4],
              "impl_only": [json.loads(x) for x in sorted(db - da)][:4]}]
+
+
+# The texts the hand-written model was read against.  They are NOT part of the theorem files: when one
+# changes, only its own obligation breaks ("re-read the model"), the theorems over the regenerated literals
+# still compile, and K4 / K6 decide on concrete types whether the behaviour changed.
+SHAPE_PINS = [
+    ("simple_enum_cond", '"variants . iter () . all (| variant | matches ! (variant . details , VariantDetails :: Simple))"'),
+    ("newtype_inner_def", '"type_space . id_to_entry . get (type_id) . unwrap ()"'),
+    ("is_str_def", '"matches ! (inner_type . details , TypeEntryDetails :: String)"'),
+    ("struct_derive_ops", "(@nil string)"),
+    ("assembly_ops", '["let derive_set . clone ()"; "extend extra_derives"; "extend type_derives"; "into_iter"]'),
+]
+
+
+def shape_pins(ctx):
+    d = os.path.join(vlib.WORK, "audit")
+    os.makedirs(d, exist_ok=True)
+    ok_t, out_t = vlib.coq_make(["theories/Gen/DeriveTable.vo"])
+    for name, text in SHAPE_PINS:
+        p = os.path.join(d, "C19_pin_%s.v" % name)
+        with open(p, "w") as f:
+            f.write("From Coq Require Import String List.\nFrom Typify Require Import Gen.DeriveTable.\n"
+                    "Import ListNotations.\nOpen Scope string_scope.\n"
+                    "Goal %s = %s.\nProof. reflexivity. Qed.\n" % (name, text))
+        rc, out, err = vlib.coqc_file(p, 120) if ok_t else (1, out_t, "")
+        ctx.oblige("model shape pin: %s of type_entry.rs is the text Algo/Emit.v was written against" % name,
+                   rc == 0, (out + err)[-1200:])
 
 
 # --------------------------------------------------------------------------
@@ -522,6 +589,7 @@ def run(ctx):
     ctx.oblige("translator T2 (derive / visibility tables) recognises type_entry.rs", rc == 0, (out + err)[-2000:])
     ctx.coverage["derive_table"] = "regenerated (%s)" % out.strip() if rc == 0 else "FAILED"
     coq_ok = vlib.standard_coq_obligations(ctx, "Props.C19", THEOREMS, ())
+    shape_pins(ctx)
 
     # ---- world
     metas_cases = gen_cases(ctx)
@@ -560,10 +628,11 @@ def run(ctx):
     for i in rendered:
         for e in sviews[i]:
             n_types += 1
-            key = "%s%s%s%s" % (e["kind"], ":dataless" if e["dataless"] else "", ":str" if e["strinner"] else "",
+            key = "%s%s%s%s" % (e["kind"] + (":" + e["tagging"] if e["kind"] == "enum" else ""),
+                                ":dataless" if e["dataless"] else "", ":str" if e["strinner"] else "",
                                 ":validating" if e["de_impl"] else "")
             kinds[key] = kinds.get(key, 0) + 1
-            ctx.nontrivial.add(json.dumps([e["kind"], e["derives"], e["fields"], e["de_impl"]]))
+            ctx.nontrivial.add(json.dumps([e["kind"], e["tagging"], e["derives"], e["fields"], e["de_impl"]]))
         if model_ok:
             d = compare_views(mviews[i], sviews[i])
             if d:
@@ -609,6 +678,8 @@ def run(ctx):
                 fail = w.chunk_failures.get((i, "c19:%s:%s" % (t, e["name"])))
                 if MUT == "impl-assert-fails" and t == "str":
                     fail = [["E0277", "emulated"]]
+                if MUT == "impl-tagged-unit-enum-loses-cmp" and t == "enum" and e["tagging"] != "external":
+                    fail = [["E0277", "emulated: the trait bound `%s: Copy` is not satisfied" % e["name"]]]
                 if fail:
                     found.append({"kind": "bound-assertion-%s-rejected" % t, "module": src, "type": e["name"],
                                   "derives": e["derives"], "rustc": fail[:3], "case": cases[i],
